@@ -15,11 +15,10 @@ independently of ExactOccursCheck (the Terminates clause uses the AS-FOUND model
 """
 import copy
 import json
-import shutil
 from concurrent.futures import ThreadPoolExecutor
 
-from harness.core import (SPEC, MachineryError, model_check, read_events, require, run_driver, seed, selftest_trace,
-                          spec_mutant, tlc, validate_trace, work_dir, write_events)
+from harness.core import (SPEC, MachineryError, model_check, read_events, require, run_driver, seed, spec_mutant,
+                          validate_trace, work_dir, write_events)
 
 PID = "C08"
 _T0 = [0.0]
@@ -171,6 +170,7 @@ def run(rep, tier):
             nvec += txt.count("\n")
             f.write(txt)
     rep.exhaustive = True
+    require(nvec >= (15000 if quick else 100000), "C08: too few vectors (%d) (vacuity guard)" % nvec)
     _log("vectors: %d" % nvec)
     rep.notes["vectors"] = nvec
 
@@ -219,13 +219,13 @@ def run(rep, tier):
 
     # ---- 5. specification mutants (the oracle is not vacuous)
     _log("mutants")
-    spec_mutant(rep, "occurs_check_on_cached_reach_sets", "C08_InferImpl", "C08_InferImpl_small.cfg",
-                [("C08_InferImpl_small.cfg", "ExactOccursCheck = TRUE", "ExactOccursCheck = FALSE")],
-                ["AcyclicOrRejected"], wd=wd, workers=2)
     spec_mutant(rep, "unify_second_representative_forgotten", "C08_Infer", "C08_Infer_small_model.cfg",
                 [("C08_InferAlgo.tla", "LET T1 == Rep(s, A1)  T2 == Rep(s, A2) IN", "LET T1 == Rep(s, A1)  T2 == A2 IN")],
                 ["ModelGoodResult"], wd=wd, workers=2)
     if not quick:
+        spec_mutant(rep, "occurs_check_on_cached_reach_sets", "C08_InferImpl", "C08_InferImpl_small.cfg",
+                    [("C08_InferImpl_small.cfg", "ExactOccursCheck = TRUE", "ExactOccursCheck = FALSE")],
+                    ["AcyclicOrRejected"], wd=wd, workers=2)
         spec_mutant(rep, "union_without_occurs_test", "C08_InferImpl", "C08_InferImpl_small.cfg",
                     [("C08_InferAlgo.tla", "IN IF \\E k \\in hit : (k - 1) \\in use THEN Fail(s, \"loop\")",
                       "IN IF FALSE THEN Fail(s, \"loop\")")],
